@@ -574,6 +574,15 @@ func execRun(c *StepCase, irqs []Irq, withChan bool, st *Stats, wantAnchors bool
 	res.Depth = r.vm.VerifScopeDepth()
 	res.Labels = r.vm.VerifLabelCount()
 	res.Journal = append([]JEntry(nil), r.journal...)
+	if eventLogOn {
+		ev("steprun", r.step, res.Value, res.Err, res.Panicked, fmt.Sprint(res.PanicVal), res.Depth, res.Labels, r.clock)
+		for _, e := range res.Journal {
+			ev(e.Tag, e.T, e.Kind, e.Step)
+		}
+		for _, p := range r.pend {
+			ev("irq", p.irq.Kind, p.sent, p.sentAt, p.delivered, p.deliveredAt)
+		}
+	}
 	return res
 }
 
